@@ -217,6 +217,7 @@ fn channel_id_case(ctx: &mut Ctx, idx: usize, w: &World) {
     let toks = ctx.ask(&op);
     ctx.evals += 1;
     let pre = match toks.get(0) { Some(crate::model::Tok::X(b)) => b.clone(), _ => vec![] };
+    let _ = crate::abacus::model_hash_matches(ctx, &pre, &base); // the model's executed SHA3 of its own preimage is the real id
     if sha3_256(&pre) != base {
         ctx.count("channel-id:MISMATCH");
         ctx.disagreements.push(json!({"kind": "model-vs-implementation", "case": ctx.case_id, "what": "ChannelId::new is not SHA3-256 of the model's preimage", "op": op}));
